@@ -1,6 +1,11 @@
 import LitexProofs.Cdc.AsyncFifo
 import LitexProofs.Cdc.BusSync
 import LitexProofs.Cdc.Reset
+import LitexProofs.Cdc.AxiLite
+import LitexProofs.Cdc.Wrapper
+import LitexModel.Cdc.Glue
+import LitexProofs.Cdc.Monitor
+import LitexProofs.Stream.Basic
 import LitexProofs.Cdc.PulseSync
 /-
   C05 — Clock-domain crossings never corrupt, drop, duplicate or reorder data.
@@ -341,6 +346,170 @@ example :
                                                ⟨false, true, 0, 0, false, 0, false⟩]
     let s2 := runRst 2 false 0 s1 [⟨true, true, 0, 0, false, 0, false⟩]
     accepted 2 false 0 s2 [r] = [] ∧ delivered 2 false 0 s2 [r] = [0] := by decide
+
+/-! ### `_FIFOWrapper`: payload AND param (and first/last) cross unaltered
+
+  `FTok` is the endpoint token; `packTok`/`unpackTok` are `fifo_in.raw_bits()` / `fifo_out.raw_bits()` with the
+  field order payload, param, first, last.  The driver's `afifo_tok` machine is compared field by field with the
+  real `stream.AsyncFIFO` built from an `EndpointDescription` with payload and param layouts. -/
+
+/-- Packing is lossless up to the truncation of the fields to their widths. -/
+theorem fifowrapper_roundtrip (wp wq : Nat) (t : FTok) : unpackTok wp wq (packTok wp wq t) = normTok wp wq t :=
+  unpack_pack wp wq t
+
+/-- **fifowrapper_token_rel.**  For every schedule the endpoint tokens handed over at the source are exactly
+    the first `n` endpoint tokens accepted at the sink — payload, param, first and last, each truncated to its
+    width (inputs that fit their signals are unchanged: `normTok` is then the identity). -/
+theorem fifowrapper_token_rel (k : Nat) (b : Bool) (wp wq : Nat) (hk : 1 ≤ k) (ins : List (AFIn FTok)) :
+    wrapDelivered k b wp wq (afInit k 0) ins =
+      ((wrapAccepted k b wp wq (afInit k 0) ins).map (normTok wp wq)).take
+        (wrapDelivered k b wp wq (afInit k 0) ins).length := by
+  have hd := wrap_delivered k b wp wq ins (afInit k 0)
+  have ha := wrap_accepted k b wp wq ins (afInit k 0)
+  have hrel := afifo_token_rel k b (0 : Nat) hk (ins.map (wrapIn wp wq))
+  rw [hd, List.length_map]
+  conv => lhs; rw [hrel, ← ha]
+  rw [← List.map_take, ← List.map_take, List.map_map]
+  congr 1
+  funext t
+  exact unpack_pack wp wq t
+
+theorem normTok_id (wp wq : Nat) (t : FTok) (h1 : t.payload < 2 ^ wp) (h2 : t.param < 2 ^ wq) :
+    normTok wp wq t = t := by
+  obtain ⟨a, c, f, l⟩ := t
+  simp only [normTok] at *
+  rw [Nat.mod_eq_of_lt h1, Nat.mod_eq_of_lt h2]
+
+/-- Non-vacuity: a token with a non-zero param crosses with its param. -/
+example :
+    let t : FTok := ⟨5, 3, true, false⟩
+    let ins : List (AFIn FTok) := [⟨true, false, 0, 0, true, t, false⟩, ⟨false, true, 0, 0, false, t, true⟩,
+      ⟨false, true, 0, 0, false, t, true⟩, ⟨false, true, 0, 0, false, t, true⟩]
+    wrapDelivered 2 false 4 2 (afInit 2 0) ins = [t] := by decide
+
+/-! ### AXILiteClockDomainCrossing: five crossings, the response channels in the opposite direction -/
+
+/-- **axilite_cdc_rel.**  For every interleaving of the two clocks, every resolution of all ten synchronisers
+    and every behaviour of master and slave: on each of the five channels the tokens handed over are a prefix of
+    the tokens accepted (exactly once, in order, unaltered), with at most `2^k` in flight. -/
+theorem axilite_cdc_rel (k : Nat) (z : α) (hk : 1 ≤ k) (c : AxChan) (ins : List (AxIn α)) :
+    axDelivered k z c (axInit k z) ins <+: axAccepted k z c (axInit k z) ins ∧
+    (axAccepted k z c (axInit k z) ins).length ≤ (axDelivered k z c (axInit k z) ins).length + 2 ^ k := by
+  rw [ax_accepted_ch, ax_delivered_ch, ax_init_ch]
+  refine ⟨afifo_delivered_prefix k false z hk _, ?_⟩
+  simpa using afifo_capacity k false z hk (ins.map (axChanIn c))
+
+/-- **Direction of every channel, as coded.**  AW, W and AR accept at `cd_from` edges and hand over at `cd_to`
+    edges; B and R accept at `cd_to` edges (slave side) and hand over at `cd_from` edges (master side). -/
+theorem axilite_direction (k : Nat) (z : α) (c : AxChan) (s : AxState α) (x : AxIn α) :
+    (accNow k (s.ch c) (axChanIn c x) ≠ [] → (if c.fwd then x.tf else x.tt) = true) ∧
+    (delNow false z (s.ch c) (axChanIn c x) ≠ [] → (if c.fwd then x.tt else x.tf) = true) := by
+  constructor
+  · intro h
+    by_contra hn
+    apply h
+    have : (axChanIn c x).tw = false := by simpa [axChanIn] using hn
+    simp [accNow, this]
+  · intro h
+    by_contra hn
+    apply h
+    have : (axChanIn c x).tr = false := by simpa [axChanIn] using hn
+    simp [delNow, this]
+
+example : AxChan.fwd .aw = true ∧ AxChan.fwd .w = true ∧ AxChan.fwd .ar = true ∧
+    AxChan.fwd .b = false ∧ AxChan.fwd .r = false := by decide
+
+/-- The product really is a product: channel `c` evolves as a single FIFO on its own projection of the
+    schedule, whatever happens on the other four channels. -/
+theorem axilite_channels_independent (k : Nat) (z : α) (c : AxChan) (ins : List (AxIn α)) :
+    (axRun k z (axInit k z) ins).ch c = runFrom k false z (afInit k z) (ins.map (axChanIn c)) := by
+  rw [ax_run_ch, ax_init_ch]
+
+/-! ### `stream.Monitor` in a foreign clock domain: strobes out by PulseSynchronizer, count back by MultiReg -/
+
+/-- The latch strobe never fires more often in the monitored domain than software issued it … -/
+theorem monitor_latch_no_spurious (w : Nat) (ins : List MonIn) :
+    monLatches w monInit ins ≤ psSent (ins.map monLatIn) := by
+  rw [mon_latches]
+  have := pulsesync_no_spurious (ins.map monLatIn)
+  simp only [monInit] at *
+  omega
+
+/-- … and, if strobes are spaced (`PSpaced`), every strobe latches exactly once (at most 3 still in flight). -/
+theorem monitor_latch_exactly_once_partial (w : Nat) (ins : List MonIn)
+    (h : PSpaced false (ins.map monLatIn)) :
+    psSent (ins.map monLatIn) = monLatches w monInit ins + psFlight (monRun w monInit ins).lat ∧
+    psFlight (monRun w monInit ins).lat ≤ 3 := by
+  rw [mon_latches, mon_lat_run]
+  exact pulsesync_partial (ins.map monLatIn) h
+
+/-- **monitor_status_partial.**  After any history `x`: if the latched count does not change during `y` (no
+    latch or reset event lands) and `y` contains two sys-clock edges, the CSR status is exactly the latched count
+    — for every interleaving and every per-bit resolution of the status synchroniser.
+    Full statement ("the status is always a value the counter has held") is false: the count crosses through a
+    plain `MultiReg`, see the witness below. -/
+theorem monitor_status_partial (w : Nat) (x y : List MonIn)
+    (hs : LatchedStable w (monRun w monInit x) y) (hy : 2 ≤ monSysTicks y) :
+    (monRun w (monRun w monInit x) y).s2 = (monRun w monInit x).latd ∧
+    (monRun w (monRun w monInit x) y).latd = (monRun w monInit x).latd := by
+  obtain ⟨h1, h2⟩ := mon_status_progress w y _ hs
+  exact ⟨(h2 (Or.inr (Or.inr hy))).2, h1⟩
+
+/-- Negative witness (replayed on the real `Monitor`, `corpus/C05/monitor_torn_status.json`): the latched count
+    goes 1 → 2 (`01 → 10`) at a latch event that coincides with a sys edge whose first flop catches bit 1 new and
+    bit 0 old; software then reads 3 although only two tokens were ever counted and no reset occurred. -/
+example :
+    let e (ts tc : Bool) (mc : Nat) (la en : Bool) : MonIn := ⟨ts, tc, false, false, mc, false, la, en⟩
+    let tr : List MonIn := [e false true 0 false true, e true false 0 true false, e false true 0 false false,
+      e false true 0 false false, e false true 0 false false, e false true 0 false true, e true false 0 false false,
+      e true false 0 false false, e true false 0 true false, e false true 0 false false, e false true 0 false false,
+      e true true 2 false false, e true false 0 false false]
+    (monRun 2 monInit tr).s2 = 3 ∧ (monRun 2 monInit tr).cnt = 2 ∧ (monRun 2 monInit tr).latd = 2 := by decide
+
+/-! ### Which primitive is selected (Python-level glue, tied through the driver's `call`) -/
+
+/-- `ClockDomainCrossing` builds an asynchronous FIFO exactly when the two domains differ — with the requested
+    depth (4 by default) and the requested output stage; otherwise a wire, or a `Buffer` when `buffered`. -/
+theorem cdc_kind_spec (a b : String) (d : Option Nat) (buf : Bool) :
+    (a ≠ b → cdcKind a b d buf = .afifo (d.getD 2) buf) ∧
+    (a = b → cdcKind a b d buf = if buf then .buffer else .wire) := by
+  constructor <;> intro h <;> simp [cdcKind, h]
+
+open Litex.Stream Litex.Stream.Elem in
+/-- Same-domain crossing, unbuffered (`sink.connect(source)`): every schedule delivers exactly what it accepts,
+    in the same cycle. -/
+theorem cdc_same_domain_wire_rel (ins : List (Stream.In α)) :
+    (wire (α := α)).accepted () ins = (wire (α := α)).delivered () ins :=
+  rel_run_init (wire (α := α)) wireRel rfl wire_step ins
+
+open Litex.Stream Litex.Stream.Elem in
+/-- Same-domain crossing, buffered (`Buffer(layout)` = `PipeValid`): accepted = delivered ++ (the token in the
+    register), so delivered is a prefix of accepted and at most one token is in flight. -/
+theorem cdc_same_domain_buffered_rel (z : Stream.Tok α) (ins : List (Stream.In α)) :
+    (pipeValid z).accepted (pipeValid z).init ins =
+      (pipeValid z).delivered (pipeValid z).init ins ++ ((pipeValid z).runFrom (pipeValid z).init ins).inflight ∧
+    (pipeValid z).delivered (pipeValid z).init ins <+: (pipeValid z).accepted (pipeValid z).init ins ∧
+    ((pipeValid z).runFrom (pipeValid z).init ins).inflight.length ≤ 1 := by
+  have h := rel_run_init (pipeValid z) pvRel (by simp [pvRel, pipeValid, PVState.inflight]) (pipeValid_step z) ins
+  refine ⟨h, ?_, ?_⟩
+  · rw [h]; exact List.prefix_append _ _
+  · simp only [PVState.inflight]; split <;> simp
+
+/-- **`uart._get_uart_fifo`**: an asynchronous FIFO if and only if the two domains differ (otherwise the
+    buffered synchronous FIFO), with the requested depth. -/
+theorem uart_fifo_async_iff (d : Nat) (a b : String) :
+    (uartFifoKind d a b = .async d ↔ a ≠ b) ∧ (uartFifoKind d a b = .syncBuffered d ↔ a = b) := by
+  by_cases h : a = b <;> simp [uartFifoKind, h]
+
+/-- `UART(phy_cd)`: both FIFOs are crossings exactly when the PHY domain is not `sys` — TX from `sys` to
+    `phy_cd`, RX from `phy_cd` to `sys`; the token relation of each is then `afifo_token_rel`. -/
+theorem uart_fifos_cross_iff (dt dr : Nat) (p : String) :
+    (uartTxFifo dt p = .async dt ∧ uartRxFifo dr p = .async dr ↔ p ≠ "sys") ∧
+    (uartTxFifo dt p = .syncBuffered dt ∧ uartRxFifo dr p = .syncBuffered dr ↔ p = "sys") := by
+  by_cases h : p = "sys"
+  · subst h; simp [uartTxFifo, uartRxFifo, uartFifoKind]
+  · have h' : ¬ "sys" = p := fun e => h e.symm
+    simp [uartTxFifo, uartRxFifo, uartFifoKind, h, h']
 
 /-! ### Non-vacuity: a concrete schedule with coincident edges and both resolutions, on which tokens move -/
 
